@@ -193,6 +193,7 @@ type Context struct {
 	bufra         bytes.Buffer                   // buffer to avoid allocations
 	files         map[string]([]ast.Block)       // parsed files
 	frundisINC    []string                       // list of paths where to search for frundis source files
+	elided        bool                           // whether last macro was elided because of a format restriction
 	ifIgnoreDepth int                            // depth of "#if" blocks with false condition
 	incFiles      []string                       // frundis source files currently being processed (innermost last)
 	ivars         map[string]string              // interpolation variables
